@@ -134,21 +134,21 @@ def body(ctx, case):
     r1 = service.call_service(ctx, dataA)
     st1 = package_state()
     changed = diff_state(st0, st1)
-    ctx.require(not changed, f"no module-level state of the library differs after a call (changed: {changed[:4]})")
+    ctx.require(not changed, "no module-level state of the library differs after a call")
     in_after = freeze(service.plain(dataA))
     ctx.require(in_before == in_after, "the caller's input object is left unchanged by the call")
     snap1 = freeze(service.result_view(r1))
     keys1, recs1 = service.graph_keys(r1), [r["name"] for r in service.record_list(r1)]
-    ctx.require(keys1 == sorted(recs1), f"graph entries of the first result are exactly its own records (graphs {keys1} vs records {sorted(recs1)})")
+    ctx.require(keys1 == sorted(recs1), "graph entries of the first result are exactly its own records")
     r2 = service.call_service(ctx, dataB)
     keys2, recs2 = service.graph_keys(r2), [r["name"] for r in service.record_list(r2)]
-    ctx.require(keys2 == sorted(recs2), f"graph entries of a later result are exactly its own records (graphs {keys2} vs records {sorted(recs2)})")
+    ctx.require(keys2 == sorted(recs2), "graph entries of a later result are exactly its own records")
     r3 = service.call_service(ctx, dataA)
     ctx.require(freeze(service.result_view(r1)) == snap1, "a result returned earlier is not altered by later calls")
     ctx.require(service.same(service.result_view(r3), service.result_view(r1), 1e-9), "running the same input object again after another analysis gives the same result")
     st3 = package_state()
     changed = diff_state(st0, st3)
-    ctx.require(not changed, f"no module-level state differs after the call history (changed: {changed[:4]})")
+    ctx.require(not changed, "no module-level state differs after the call history")
     ctx.tag(f"form={form}")
     recs = {r["name"]: r for r in service.record_list(r1)}
     if "Site/Direct Integration" in recs:
